@@ -416,6 +416,7 @@ func c01sHistory(tr *lib.Trace, r *rand.Rand, h int, cfg c01sCfg) {
 	checkState := func(last *c01sTran) bool {
 		rt := db.NewReadTran()
 		var rows0 []c01sRow
+		var listings [][]c01sRow
 		ok := true
 		for ix := 0; ix < 2; ix++ {
 			rows := c01sScanAll(rt, ix)
@@ -423,6 +424,7 @@ func c01sHistory(tr *lib.Trace, r *rand.Rand, h int, cfg c01sCfg) {
 			sort.Slice(sorted, func(i, j int) bool {
 				return sorted[i].k < sorted[j].k || sorted[i].k == sorted[j].k && sorted[i].a < sorted[j].a
 			})
+			listings = append(listings, sorted)
 			if ix == 0 {
 				rows0 = sorted
 			} else if fmt.Sprint(sorted) != fmt.Sprint(rows0) {
@@ -431,22 +433,29 @@ func c01sHistory(tr *lib.Trace, r *rand.Rand, h int, cfg c01sCfg) {
 				ok = false
 			}
 		}
-		for i := range rows0 {
-			for j := i + 1; j < len(rows0); j++ {
-				if sc.sameKey(rows0[i], rows0[j]) {
-					sig := "dup-key"
-					if sc.emptyKey(rows0[i]) {
-						sig = "dup-key-empty"
+		// duplicates among the rows any index lists (a duplicate key can hide one of the rows
+		// from the key index itself)
+		for _, rows := range listings {
+			found := false
+			for i := range rows {
+				for j := i + 1; j < len(rows) && !found; j++ {
+					if sc.sameKey(rows[i], rows[j]) {
+						sig := "dup-key"
+						if sc.emptyKey(rows[i]) {
+							sig = "dup-key-empty"
+						}
+						tr.Fail(sig, fmt.Sprintf("%s: after commit of ut#%d two live rows share the key: %v and %v",
+							desc(log...), last.id, rows[i], rows[j]))
+						ok, found = false, true
+					} else if sc.kind == 1 && rows[i].a != "" && rows[i].a == rows[j].a {
+						tr.Fail("dup-unique", fmt.Sprintf("%s: after commit of ut#%d two live rows share unique value: %v and %v",
+							desc(log...), last.id, rows[i], rows[j]))
+						ok, found = false, true
 					}
-					tr.Fail(sig, fmt.Sprintf("%s: after commit of ut#%d two live rows share the key: %v and %v",
-						desc(log...), last.id, rows0[i], rows0[j]))
-					ok = false
 				}
-				if sc.kind == 1 && rows0[i].a != "" && rows0[i].a == rows0[j].a {
-					tr.Fail("dup-unique", fmt.Sprintf("%s: after commit of ut#%d two live rows share unique value: %v and %v",
-						desc(log...), last.id, rows0[i], rows0[j]))
-					ok = false
-				}
+			}
+			if found {
+				break
 			}
 		}
 		if n := rt.GetInfo("t").Nrows; n != len(rows0) {
@@ -467,11 +476,19 @@ func c01sHistory(tr *lib.Trace, r *rand.Rand, h int, cfg c01sCfg) {
 			return
 		}
 		if len(tables) > 0 {
-			st.ut.commit()
-			pending++
 			log = append(log, st)
+			if msg := lib.Catch(func() { st.ut.commit() }); msg != "" {
+				tr.Fail("commit-panic"+suffix(emptyInvolved), fmt.Sprintf("%s: commit of ut#%d panics: %s", desc(log...), st.id, msg))
+				abandoned = true
+				return
+			}
+			pending++
 			tr.Count(pre + "commit.update")
-			if !checkState(st) {
+			ok := false
+			if msg := lib.Catch(func() { ok = checkState(st) }); msg != "" {
+				tr.Fail("scan-panic"+suffix(emptyInvolved), fmt.Sprintf("%s: scanning the committed state after ut#%d panics: %s", desc(log...), st.id, msg))
+			}
+			if !ok {
 				abandoned = true
 			}
 		} else {
@@ -538,7 +555,11 @@ func c01sHistory(tr *lib.Trace, r *rand.Rand, h int, cfg c01sCfg) {
 		tr.Count(pre + "abandoned")
 		return
 	}
-	got := c01sScanAll(db.NewReadTran(), 0)
+	var got []c01sRow
+	if msg := lib.Catch(func() { got = c01sScanAll(db.NewReadTran(), 0) }); msg != "" {
+		tr.Fail("scan-panic"+suffix(emptyInvolved), fmt.Sprintf("%s: final scan panics: %s", desc(log...), msg))
+		return
+	}
 	exp := committed.sorted(0)
 	if c01sShow(got) != c01sShow(exp) {
 		tr.Fail("serial-final"+suffix(emptyInvolved), fmt.Sprintf("%s: final rows %v but serial replay gives %v", desc(log...), got, exp))
